@@ -1030,7 +1030,7 @@ func c38Cleanup(ctx context.Context, st *c38Stacks, buckets []string) {
 
 func runC38(tier, replay string) {
 	r := vkit.Begin("C38", "exploration", tier)
-	r.SetRule("history = PRNG-generated operation sequence (vmodel generator, General and Meta profiles without append; buckets, versioning toggles, puts with content type/system headers/user metadata/tags/class/checksums/conditions, gets incl. ranges and version ids, heads, deletes, multi-deletes, copies with directives, multipart create/part/part-copy/complete/abort, tagging, transitions; ~20% resp. 3% deliberately failing) executed step by step on A = s3client.NewStorage(SDK client, path style, SigV4) -> httptest HTTP server (SetupServer) -> metadata-part storage a0, and on B = identical fresh storage driven directly. Per write: results compared (error kind, ETag, version ids / upload ids through a learned bijection, delete-marker flags), then every touched key / upload list / bucket list is read directly from a0 and B (write effect) and through A and directly from a0 (read translation: ListObjectVersions, Head, Get, GetObjectTagging by key and by version id; LastModified to the second). Per generated read: A vs a0. Every 20 steps and at the end: ListObjects probes (prefix/delimiter/start-after/max-keys), paged ListObjectVersions; at the end vmodel snapshots of A, a0 and B. distinct = distinct (profile, op-kind bigram) pairs executed")
+	r.SetRule("every run first executes two scripted histories: the error matrix (every operation kind x every applicable failure cause) and the key scenario (21 keys of '+', space, '%', literal percent escapes, '?', '#', '&;=', outer/double spaces, non-ASCII, dot segments, '//' incl. pairs colliding under wrong/repeated unescaping, all present at once in an unversioned and a versioned bucket, each used addressed directly, as copy / copy-by-version / UploadPartCopy (whole, range, by version) / transition SOURCE, as copy and multipart DESTINATION, as multi-delete entry and listing prefix; a plain control key runs the same sequence first and only divergences the control key does not show get the key class appended to their signature). Then history = PRNG-generated operation sequence (vmodel generator, General and Meta profiles without append; buckets, versioning toggles, puts with content type/system headers/user metadata/tags/class/checksums/conditions, gets incl. ranges and version ids, heads, deletes, multi-deletes, copies with directives, multipart create/part/part-copy/complete/abort, tagging, transitions; ~20% resp. 3% deliberately failing; every third history additionally on the keys 'a+b', 'a b', 'p%20q+r s') executed step by step on A = s3client.NewStorage(SDK client, path style, SigV4) -> httptest HTTP server (SetupServer) -> metadata-part storage a0, and on B = identical fresh storage driven directly. Per write: results compared (error kind, ETag, version ids / upload ids through a learned bijection, delete-marker flags), then every touched key / upload list / bucket list is read directly from a0 and B (write effect) and through A and directly from a0 (read translation: ListObjectVersions, Head, Get, GetObjectTagging by key and by version id; LastModified to the second). Per generated read: A vs a0. Every 20 steps and at the end: ListObjects probes (prefix/delimiter/start-after/max-keys), paged ListObjectVersions; at the end vmodel snapshots of A, a0 and B. distinct = distinct (profile, op-kind bigram) pairs executed")
 	r.Assume("error kind = classification by errors.Is/As against the error values exported by package storage (what a caller of storage.Storage can test for); everything else is one class 'other'")
 	r.Assume("excluded by design (S3ClientStorage answers ErrNotImplemented): AppendObject (not generated), CopyObject with a byte range (range stripped), TransitionObjectStorageClass by version id (version id stripped); counts in evidence")
 	r.Assume("SDK retries are switched off (RetryMaxAttempts=1) so that failing requests are not repeated; user metadata keys are generated lower-case; timestamps are compared to the second and only between A and its own backing storage")
